@@ -273,4 +273,32 @@ for n_, (names, T, got_since, got_until, got_lim, errs) in enumerate(redriven_sc
     if got_since != T or got_until != T or got_lim != T[-3:] or any(e is not None for e in errs):
         leg.violation(key, f"extraction #{n_} from a child greenlet whose ancestor is parked in a generator/coroutine frame re-driven by another caller: true stack {names}, "
                            f"extract_since(None) gave {[f.f_code.co_name for f in got_since]}, extract_until {[f.f_code.co_name for f in got_until]}, errors {errs!r}")
+
+# nested generators re-driven by different callers, no greenlet involved: the asking frame and its immediate f_back (the outer
+# generator's frame) are the SAME objects on every call, only the callers further out change (added after seed
+# C04-fback-walk-memoised-by-inner-and-fback)
+def nested_generators_scenario():
+    seen = []
+    def inner_gen():
+        while True:
+            me = sys._getframe(0)
+            T = truth(me)
+            st = extract_since(None); su = extract_until(me); s2 = extract_until(me, limit=2)
+            seen.append(([f.f_code.co_name for f in T], T, [x.pyframe for x in st.frames], [x.pyframe for x in su.frames], [x.pyframe for x in s2.frames],
+                         (st.error, su.error, s2.error)))
+            yield
+    def outer_gen():
+        yield from inner_gen()
+    def driver_a(g): next(g)
+    def driver_b(g): next(g)
+    def via_b(g): driver_b(g)
+    g = outer_gen()
+    driver_a(g); via_b(g); driver_a(g); via_b(g)
+    return seen
+for n_, (names, T, got_since, got_until, got2, errs) in enumerate(nested_generators_scenario()):
+    key = ("nested-generators-redriven-by-another-caller", n_)
+    leg.case(key, True)
+    if got_since != T or got_until != T or got2 != T[-2:] or any(e is not None for e in errs):
+        leg.violation(key, f"call #{n_} from a generator driven through `yield from` by an outer generator that different callers resume: true stack {names}, "
+                           f"extract_since(None) gave {[f.f_code.co_name for f in got_since]}, extract_until {[f.f_code.co_name for f in got_until]}, errors {errs!r}")
 leg.finish(exhaustive=True)
